@@ -126,6 +126,11 @@ let () =
         | _ -> failwith "entries" in
       let es = ents (int_of_string n) toks [] in
       (match extract_partial (k = "E") (comps pre) (n_of_int (int_of_string umask)) (preserve = "1") es with
+       | (f, None) when k = "EU" ->
+         (* the unprivileged owner: restoreDirModes in its real order, every chmod checked *)
+         (match extract_po false (comps pre) (n_of_int (int_of_string umask)) (preserve = "1") es with
+          | Ok f' -> Printf.printf "%s OK %s\n" id (show_fs f')
+          | Err e -> Printf.printf "%s %s RES %s\n" id (show_err e) (show_fs f))
        | (f, None) -> Printf.printf "%s OK %s\n" id (show_fs f)
        | (_, Some (XAbsLink | XWriteThrough)) -> Printf.printf "%s UNJUDGED\n" id
        | (f, Some e) -> Printf.printf "%s %s RES %s\n" id (show_err e) (show_fs f))
